@@ -18,6 +18,7 @@ import (
 	"context"
 	"fmt"
 	"sync"
+	"sync/atomic"
 	"testing"
 
 	pubsub "github.com/libp2p/go-libp2p-pubsub"
@@ -78,12 +79,18 @@ type c16Rig struct {
 
 // c16Pub stands for the pubsub topic of one sender.
 type c16Pub struct {
-	r      *c16Rig
-	sender string
+	r        *c16Rig
+	sender   string
+	failNext int32 // the next publication attempt is refused
 }
+
+var errC16Refused = fmt.Errorf("verif: publisher refused the message")
 
 func (p *c16Pub) Publish(_ context.Context, data []byte, _ ...pubsub.PubOpt) error {
 	p.r.note(p.sender, data)
+	if atomic.CompareAndSwapInt32(&p.failNext, 1, 0) {
+		return errC16Refused
+	}
 	return p.r.inject(p.sender, data)
 }
 
@@ -224,6 +231,22 @@ func (r *c16Rig) Send(sender, tag string) (uint64, error) {
 	return n, nil
 }
 
+func (r *c16Rig) SendFailing(sender, tag string) (uint64, error) {
+	ch := r.real[sender]
+	if ch == nil {
+		r.t.Fatalf("no real sender %s", sender)
+	}
+	atomic.StoreInt32(&ch.publisher.(*c16Pub).failNext, 1)
+	err := ch.Send(r.sctx, &c16Msg{tag: tag})
+	r.mu.Lock()
+	n, ok := r.tagSeq[sender+"/"+tag]
+	r.mu.Unlock()
+	if !ok {
+		r.t.Fatalf("message %s/%s never reached the publisher", sender, tag)
+	}
+	return n, err
+}
+
 func (r *c16Rig) SimSend(sender, tag string) uint64 {
 	r.mu.Lock()
 	r.simNext[sender]++
@@ -277,7 +300,7 @@ func (r *c16Rig) Close() {
 	}
 }
 
-var c16Target = kit.BcastTarget{Name: "libp2p", Lifecycle: "separate", Cap: messageHandlerThrottle, NewRig: newC16Rig}
+var c16Target = kit.BcastTarget{Name: "libp2p", Lifecycle: "separate", Cap: messageHandlerThrottle, CanFailPublish: true, NewRig: newC16Rig}
 
 func TestVerif_C16_Replay(t *testing.T) {
 	kit.RequireEngine(t)
